@@ -13,6 +13,8 @@ PRELUDE = "From V Require Import lib.Base model.Async.\n"
 PROTOCOL = "rpyc/core/protocol.py"
 HELPERS = "rpyc/utils/helpers.py"
 NETREF = "rpyc/core/netref.py"
+CHANNEL = "rpyc/core/channel.py"
+STREAM = "rpyc/core/stream.py"
 
 ATOMS = {"self._is_ready": "GReady", "self._is_exc": "GIsExc", "self._ttl.expired()": "GTtlExpired",
          "self.expired": "GExpiredProp", "self.ready": "GReadyProp"}
@@ -43,7 +45,12 @@ def stmt(st):
     txt = ast.unparse(st)
     fixed = {"self._is_exc = is_exc": "SSetExc", "self._obj = obj": "SSetObj", "self._is_ready = True": "SSetReady",
              "for cb in self._callbacks:\n    cb(self)": "SRunCallbacks", "del self._callbacks[:]": "SDelCallbacks",
-             "self._ttl = Timeout(timeout)": "SSetTtl", "self._conn.poll_all()": "SPollAll", "self.wait()": "SWait"}
+             "self._ttl = Timeout(timeout)": "SSetTtl", "self._conn.poll_all()": "SPollAll", "self.wait()": "SWait",
+             # the repaired form (callbacks isolated from each other, registration atomic w.r.t. the arrival)
+             "callbacks = self._callbacks[:]": "STakeCallbacks",
+             "if error is not None:\n    raise error": "SReraiseFirst",
+             "if not self._is_ready:\n    self._callbacks.append(func)\n    return": "SIfNotReadyAppendRet",
+             "func(self)": "SCallFunc"}
     if txt in fixed:
         return fixed[txt]
     if isinstance(st, ast.If) and not st.orelse and len(st.body) == 1:
@@ -65,6 +72,56 @@ def stmt(st):
     if isinstance(st, ast.Return) and st.value is not None:
         return "SRetGuard %s" % guard(st.value)
     raise Unrecognised("statement: " + txt)
+
+
+ISOLATED_LOOP = ("error = None",
+                 "for cb in callbacks:\n    try:\n        cb(self)\n    except Exception as ex:\n        if error is None:\n            error = ex")
+
+
+def stmts(body):
+    """a method body -> list of constructor texts; `with self._lock:` is flattened into acquire ... release"""
+    out = []
+    i = 0
+    while i < len(body):
+        st = body[i]
+        if isinstance(st, ast.With) and len(st.items) == 1 and st.items[0].optional_vars is None \
+                and ast.unparse(st.items[0].context_expr) == "self._lock":
+            out += ["SLockAcquire"] + stmts(st.body) + ["SLockRelease"]
+        elif i + 1 < len(body) and (ast.unparse(st), ast.unparse(body[i + 1])) == ISOLATED_LOOP:
+            out.append("SRunTakenIsolated")
+            i += 1
+        else:
+            out.append(stmt(st))
+        i += 1
+    return out
+
+
+def isolated_of(callp):
+    return "SRunTakenIsolated" in callp and "SRunCallbacks" not in callp
+
+
+def locked_part(p):
+    out, inside = [], False
+    for x in p:
+        if x == "SLockAcquire":
+            inside = True
+        elif x == "SLockRelease":
+            inside = False
+        elif inside:
+            out.append(x)
+    return out
+
+
+def atomic_of(callp, addp):
+    lc, la = locked_part(callp), locked_part(addp)
+    return "SSetReady" in lc and "STakeCallbacks" in lc and "SIfNotReadyAppendRet" in la \
+        and not any(x.startswith("SIfCallElseAppend") for x in addp)
+
+
+def _drop_lock(text):
+    """the repaired form adds a lock; the snapshots of __init__/__slots__/imports ignore it"""
+    text = text.replace("\n    self._lock = threading.Lock()", "").replace(", '_lock'", "")
+    return "; ".join(x for x in text.split("; ") if x != "import threading") if "; " in text or text == "import threading" else text
 
 
 METHODS = [  # (python name, generated name, argument names, is property)
@@ -133,6 +190,7 @@ def translate(repo):
 
     tree = parse(repo, SRC)
     cls = find_class(tree, "AsyncResult")
+    progs = {}
     for py, gen, argnames, is_prop in METHODS:
         def one(py=py, gen=gen, argnames=argnames, is_prop=is_prop):
             fn = find_func(cls, py)
@@ -141,14 +199,24 @@ def translate(repo):
             decos = [ast.unparse(d) for d in fn.decorator_list]
             if decos != (["property"] if is_prop else []):
                 raise Unrecognised("%s decorators" % py)
-            return typed(gen, "list stmt", coq_list(stmt(s) for s in strip_doc(fn.body)))
+            prog = stmts(strip_doc(fn.body))
+            progs[py] = prog
+            return typed(gen, "list stmt", coq_list(prog))
         guarded(gen, one)
+
+    def facts():
+        if "__call__" not in progs or "add_callback" not in progs:
+            raise Unrecognised("__call__ / add_callback not translated")
+        return [typed("callbacks_isolated", "bool", coq_bool(isolated_of(progs["__call__"]))),
+                typed("add_callback_atomic", "bool", coq_bool(atomic_of(progs["__call__"], progs["add_callback"])))]
+    guarded("facts", facts)
     for nm in ("__init__", "__repr__"):
-        guarded("AsyncResult_" + nm, lambda nm=nm: shape("AsyncResult_" + nm, func_shape(find_func(cls, nm))))
-    guarded("AsyncResult_slots", lambda: shape("AsyncResult_slots", ast.unparse(find_assign(cls, "__slots__"))))
+        guarded("AsyncResult_" + nm, lambda nm=nm: shape("AsyncResult_" + nm, _drop_lock(func_shape(find_func(cls, nm)))))
+    guarded("AsyncResult_slots", lambda: shape("AsyncResult_slots", _drop_lock(ast.unparse(find_assign(cls, "__slots__")))))
     guarded("AsyncResult_members", lambda: shape("AsyncResult_members", ", ".join(
         n.name for n in cls.body if isinstance(n, ast.FunctionDef))))
-    guarded("imports", lambda: shape("imports", "; ".join(ast.unparse(n) for n in tree.body if isinstance(n, (ast.Import, ast.ImportFrom)))))
+    guarded("imports", lambda: shape("imports", "; ".join(x for x in (ast.unparse(n) for n in tree.body if isinstance(n, (ast.Import, ast.ImportFrom)))
+                                                          if x != "import threading")))
 
     ptree = parse(repo, PROTOCOL)
     conn = find_class(ptree, "Connection")
@@ -156,13 +224,72 @@ def translate(repo):
                                                     coq_list(cstmts_sync(find_func(conn, "sync_request")))))
     guarded("Connection_async_request", lambda: typed("Connection_async_request", "list cstmt",
                                                      coq_list(cstmts_async(find_func(conn, "async_request")))))
-    for nm in ("_async_request", "_seq_request_callback", "serve", "poll", "poll_all"):
+    for nm in ("_async_request", "_seq_request_callback", "serve", "poll", "poll_all", "_dispatch", "_unbox", "_netref_factory"):
         guarded("Connection_" + nm, lambda nm=nm: shape("Connection_" + nm, func_shape(find_func(conn, nm))))
+    if any(isinstance(n, ast.FunctionDef) and n.name == "_dispatch_response" for n in conn.body):
+        guarded("Connection__dispatch_response", lambda: shape("Connection__dispatch_response", func_shape(find_func(conn, "_dispatch_response"))))
+
+    def dispatch_reply():
+        """the MSG_REPLY branch of _dispatch: the value is unboxed (possibly over a round trip) before the callback is called.
+        Two forms: inline (`obj = self._unbox(args)` then the callback), or through `_dispatch_response`, which also turns a
+        payload that cannot be rebuilt into an exception delivered to that request (EOFError still propagates)."""
+        fn = find_func(conn, "_dispatch")
+        node = next((n for n in ast.walk(fn) if isinstance(n, ast.If) and ast.unparse(n.test) == "msg == consts.MSG_REPLY"), None)
+        if node is None:
+            raise Unrecognised("_dispatch: no MSG_REPLY branch")
+        body = [ast.unparse(x) for x in node.body]
+        delivered = False
+        if body == ["self._dispatch_response(msg, seq, False, args)"]:
+            exc_branch = node.orelse[0] if len(node.orelse) == 1 and isinstance(node.orelse[0], ast.If) else None
+            if exc_branch is None or ast.unparse(exc_branch.test) != "msg == consts.MSG_EXCEPTION" \
+                    or [ast.unparse(x) for x in exc_branch.body] != ["self._dispatch_response(msg, seq, True, args)"]:
+                raise Unrecognised("_dispatch: MSG_EXCEPTION branch")
+            dr = find_func(conn, "_dispatch_response")
+            if [a.arg for a in dr.args.args] != ["self", "msg", "seq", "is_exc", "args"]:
+                raise Unrecognised("_dispatch_response signature")
+            want = ["try:\n    obj = self._unbox_exc(args) if is_exc else self._unbox(args)\nexcept EOFError:\n    raise\n"
+                    "except Exception:\n    is_exc, obj = (True, sys.exc_info()[1])",
+                    "self._seq_request_callback(msg, seq, is_exc, obj)"]
+            if [ast.unparse(x) for x in strip_doc(dr.body)] != want:
+                raise Unrecognised("_dispatch_response body")
+            body = ["obj = self._unbox(args)", "self._seq_request_callback(msg, seq, False, obj)"]   # what it does for a reply
+            delivered = True
+        return [typed("Connection_dispatch_reply", "list string", coq_list(coq_string(x) for x in body)),
+                typed("response_decode_failure_delivered", "bool", coq_bool(delivered))]
+    guarded("Connection_dispatch_reply", dispatch_reply)
 
     htree = parse(repo, HELPERS)
     timed = find_class(htree, "timed")
     guarded("timed_call_body", lambda: typed("timed_call_body", "list cstmt", coq_list(cstmts_timed(find_func(timed, "__call__")))))
     guarded("timed_init", lambda: shape("timed_init", func_shape(find_func(timed, "__init__"))))
     guarded("Async_call", lambda: shape("Async_call", func_shape(find_func(find_class(htree, "_Async"), "__call__"))))
-    guarded("netref_asyncreq", lambda: shape("netref_asyncreq", func_shape(find_func(parse(repo, NETREF), "asyncreq"))))
+    ntree = parse(repo, NETREF)
+
+    def req(name):
+        fn = find_func(ntree, name)
+        if [a.arg for a in fn.args.args] != ["proxy", "handler"] or fn.args.vararg is None or fn.args.vararg.arg != "args" \
+                or fn.args.kwarg or fn.args.kwonlyargs:
+            raise Unrecognised(name + " signature")
+        table = {"conn = object.__getattribute__(proxy, '____conn__')": "CGetConn",
+                 "return conn.sync_request(handler, proxy, *args)": "CReturnConnSyncRequest",
+                 "return conn.async_request(handler, proxy, *args)": "CReturnConnAsyncRequest"}
+        out = []
+        for st in strip_doc(fn.body):
+            t = ast.unparse(st)
+            if t not in table:
+                raise Unrecognised("%s statement: %s" % (name, t))
+            out.append(table[t])
+        return typed("netref_" + name, "list cstmt", coq_list(out))
+    guarded("netref_syncreq", lambda: req("syncreq"))
+    guarded("netref_asyncreq", lambda: req("asyncreq"))
+    guarded("netref__make_method", lambda: shape("netref__make_method", func_shape(find_func(ntree, "_make_method"))))
+
+    ctree = parse(repo, CHANNEL)
+    chan = find_class(ctree, "Channel")
+    for nm in ("poll", "recv"):
+        guarded("Channel_" + nm, lambda nm=nm: shape("Channel_" + nm, func_shape(find_func(chan, nm))))
+    stree = parse(repo, STREAM)
+    sock = find_class(stree, "SocketStream")
+    guarded("SocketStream_read", lambda: shape("SocketStream_read", func_shape(find_func(sock, "read"))))
+    guarded("Stream_poll", lambda: shape("Stream_poll", func_shape(find_func(find_class(stree, "Stream"), "poll"))))
     return items
